@@ -634,6 +634,41 @@ MUTANTS = [
     dict(name='c03-group-wait-no-reset-when-the-wait-throws', prop='C03', clause='D5', edits=[('include/oneapi/tbb/task_group.h',
         '        bool cancellation_status = false;\n        try_call([&] {\n            d1::wait(m_wait_vertex.get_context(), context());\n        }).on_completion([&] {\n            // TODO: the reset method is not thread-safe. Ensure the correct behavior.\n            cancellation_status = m_context.is_group_execution_cancelled();\n            context().reset();\n        });\n        return cancellation_status ? canceled : complete;',
         '        d1::wait(m_wait_vertex.get_context(), context());\n        bool cancellation_status = m_context.is_group_execution_cancelled();\n        context().reset();\n        return cancellation_status ? canceled : complete;')]),
+    dict(name='c03-reduce-task-destroyed-before-the-fold', prop='C03', clause='D12', edits=[('include/oneapi/tbb/parallel_reduce.h',
+        """    wait_node* root = fold_tree_to_root<tree_node_type>(my_parent, ed);
+    auto allocator = my_allocator;
+    // Task execution finished - destroy it
+    this->~start_reduce();""",
+        """    node* parent = my_parent;
+    auto allocator = my_allocator;
+    // Task execution finished - destroy it
+    this->~start_reduce();
+    wait_node* root = fold_tree_to_root<tree_node_type>(parent, ed);""")]),
+    dict(name='c03-det-reduce-task-destroyed-before-the-fold', prop='C03', clause='D12', edits=[('include/oneapi/tbb/parallel_reduce.h',
+        """    wait_node* root = fold_tree_to_root<tree_node_type>(my_parent, ed);
+    auto allocator = my_allocator;
+    // Task execution finished - destroy it
+    this->~start_deterministic_reduce();""",
+        """    node* parent = my_parent;
+    auto allocator = my_allocator;
+    // Task execution finished - destroy it
+    this->~start_deterministic_reduce();
+    wait_node* root = fold_tree_to_root<tree_node_type>(parent, ed);""")]),
+    dict(name='c03-fold-does-not-give-the-reference-back', prop='C03', clause='D12', edits=[('include/oneapi/tbb/partitioner.h',
+        """        try_call([&] {
+            self->join(ed.context);
+        }).on_exception([&] {
+            ++n->m_ref_count;
+        });""",
+        """        self->join(ed.context);""")]),
+    dict(name='c01-reduce-root-never-released', prop='C01', clause='D6', edits=[('include/oneapi/tbb/parallel_reduce.h',
+        """    this->~start_reduce();
+    // Finish parallel reduce execution when the root (last node) is reached
+    if (root) {
+        root->m_wait.release();
+    }""",
+        """    this->~start_reduce();
+    (void)root;""")]),
     dict(name='c01-seed3-run-and-wait-handle-epilogue-on-exception-only', prop='C01', clause='D9', edits=[('include/oneapi/tbb/task_group.h',
         """            execute_and_wait(*acs::release(h), context(), m_wait_vertex.get_context(), context());
         }).on_completion([&] {""",
@@ -1480,6 +1515,22 @@ BENIGN = [
     dict(name='c03-b-group-wait-epilogue-by-raii-guard', prop='C03', edits=[('include/oneapi/tbb/task_group.h',
         '        bool cancellation_status = false;\n        try_call([&] {\n            d1::wait(m_wait_vertex.get_context(), context());\n        }).on_completion([&] {\n            // TODO: the reset method is not thread-safe. Ensure the correct behavior.\n            cancellation_status = m_context.is_group_execution_cancelled();\n            context().reset();\n        });\n        return cancellation_status ? canceled : complete;',
         '        bool cancellation_status = false;\n        {\n            auto epilogue = make_raii_guard([&] {\n                cancellation_status = m_context.is_group_execution_cancelled();\n                context().reset();\n            });\n            d1::wait(m_wait_vertex.get_context(), context());\n        }\n        return cancellation_status ? canceled : complete;')]),
+    dict(name='c03-b-fold-to-root-renamed', prop='C03', edits=[('re', 'include/oneapi/tbb/partitioner.h', r'\bfold_tree_to_root\b', 'unwind_tree'),
+        ('re', 'include/oneapi/tbb/parallel_reduce.h', r'\bfold_tree_to_root\b', 'unwind_tree')]),
+    dict(name='c01-b-fold-to-root-renamed', prop='C01', edits=[('re', 'include/oneapi/tbb/partitioner.h', r'\bfold_tree_to_root\b', 'unwind_tree'),
+        ('re', 'include/oneapi/tbb/parallel_reduce.h', r'\bfold_tree_to_root\b', 'unwind_tree')]),
+    dict(name='c03-b-fold-restores-in-a-catch-all', prop='C03', edits=[('include/oneapi/tbb/partitioner.h',
+        """        try_call([&] {
+            self->join(ed.context);
+        }).on_exception([&] {
+            ++n->m_ref_count;
+        });""",
+        """        try {
+            self->join(ed.context);
+        } catch (...) {
+            n->m_ref_count.fetch_add(1);
+            throw;
+        }""")]),
     dict(name='c01-b-group-wait-epilogue-in-a-named-lambda', prop='C01', edits=[('include/oneapi/tbb/task_group.h',
         """        try_call([&] {
             d1::wait(m_wait_vertex.get_context(), context());
